@@ -309,6 +309,9 @@ def finish(res, module, level='model_checking', exhaustive_ok=True):
         known_findings=[e.get('id') or e.get('what') for e, v in res.known],
         violations_detail=[dict(unit=v['unit'], obligation=v['obligation'], why=v['why'], replay=v.get('replay')) for v in new_violations],
     )
+    cov.setdefault('evaluations', max(res.paths, 0))
+    cov.setdefault('distinct_nontrivial', max(res.paths, 0))
+    cov.setdefault('rule', 'one evaluation = one feasible symbolic path of the real code (distinct path condition) whose property query was discharged')
     cov.update(res.extra)
     ev = dict(property_id=res.prop, tier=res.tier, seed=res.seed, level=level, coverage=cov,
               assumptions=res.assumptions, wall_s=round(wall, 2), violations=len(new_violations))
